@@ -98,15 +98,16 @@ ADDENDA = {
  "C02": " Workload families: free-form, wide batches (60-300 records in one shard), wide extents (200-600 blocks), mass deletions (> 1024 retirements in one flush).",
  "C03": " Workload families: free-form, wide batches (60-300 records in one shard), wide extents (200-600 blocks), mass deletions (> 1024 retirements in one flush, crash points around every fsync of that flush with the most recent write torn).",
  "C04": " Two further stages: codec-synthesised images forcing every repair kind, and mass-retirement images (380-1250 duplicated keys of 1-3 blocks, so one recovery spans several journal transactions) cut after/before every recovery fsync with torn marker writes; this stage found and led to the repair of a genuine defect (known_findings.jsonl).",
- "C05": " Further stages: fill cycles, wide-extent workloads, exact partition right after recovering crash images and synthesised images.",
+ "C05": " Further stages: fill cycles, wide-extent workloads, exact partition right after recovering crash images and synthesised images, and at the first acknowledged flush after an outage (transient, site-filtered I/O faults over C09's workloads).",
  "C06": " Device sizes that are not a whole number of blocks are part of both parts.",
  "C07": " Sub-campaign C07M: explicit timestamps ahead of the wall clock published while helper threads draw automatic timestamps in the same clock shard; at quiescence an automatic call on the key must be accepted and stamped above the explicit one.",
  "C09": " Fault sites include record-only and marker-only writes; generators include bursts (> 1024 entries pending in one shard) and chains of unwritten generations behind an acknowledged one.",
  "C10": " Added oracle: no retirement marker's announced span covers a live record. Added stage: sparse devices beyond 4 GiB with records before, across and beyond byte offset 2^32.",
  "C11": " Further stages: recovery of codec-synthesised images against an independent newest-wins/expiry oracle, mass-retirement restarts, sweeper racing writers (engine D).",
  "C12": " Further stages: budgeted stores with explicit future timestamps on refused calls; automatic-write probe right after recovering crash images and synthesised images whose timestamps lie ahead of the clock.",
- "C13": " Keys of 65 535-102 400 bytes are part of the generator.",
- "C14": " One case in twenty queries ranges over 257-620 index entries with limits around 256/512.",
+ "C13": " Keys of 65 535-102 400 bytes are part of the generator; one concurrent program in six runs on a store without any memory limit.",
+ "C14": " One case in twenty queries ranges over 257-620 index entries with limits around 256/512; another one runs a few keys against a small memory budget (refused zero-copy updates followed by full-range queries).",
+ "C16": " Sub-campaign C16S: a reader parked inside its device read while the key is overwritten (stale cache entry of a retired generation), then flush and a follow-up call (update_ttl / persist / get / compare-and-swap); reads live and after restart must see the current generation.",
  "C15": " Disturbances: source mtime touched, a foreign file planted at the destination while the migration runs; mass sources (hundreds of duplicated keys).",
  "C17": " Image classes include files whose first 255-513 blocks are zero with foreign bytes behind them (the blank-device scan works in 256-block chunks).",
  "C18": " One program in four: several flush() callers on a device whose record writes fail 3-9 times in a row again and again; hangs are re-run alone up to three times.",
